@@ -220,8 +220,8 @@ def c15_jobs(tier):
     windows = [(0, 10), (395, 10), (1895, 10), (1996, 10), (9990, 10)]
     pat_windows = [20]
     if tier == "thorough":
-        # plus whole centuries at both ends of the range and 2000-2099
-        windows += [(c * 100, 100) for c in [0, 20, 99]]
+        # plus further decade windows (century years that are / are not leap years, mid-range)
+        windows += [(95, 10), (1595, 10), (2095, 10), (2395, 10), (4995, 10), (7995, 10)]
     for frm, span in windows:
         js.append(job("ZZ_C15_DateFacts", P, **{"from": frm, "span": span, "_split": 65536}))
         js.append(job("ZZ_C15_Week", P, **{"from": frm, "span": span, "_split": 65536}))
@@ -445,7 +445,7 @@ CHECKS = {
         "jobs": c15_jobs,
         "bounds": {
             "quick": "every date of the decade windows 0000-0009, 0395-0404, 1895-1904, 1996-2005, 9990-9999 (weekday, ISO week/week-year, quarter, +-1 day, week/month/quarter/year periods and predecessors); hash packing for all field values 0..9999/1..12/1..31/1..53; every pattern string of length 0..7 and 9 with the year in 2000-2099",
-            "thorough": "as quick plus every date of the century windows 00, 20 and 99 (a window takes 2-3 minutes; all 100 are not registered)",
+            "thorough": "as quick plus the decade windows 0095-0104, 1595-1604, 2095-2104, 2395-2404, 4995-5004, 7995-8004 (whole century windows take several minutes each: three of them did not finish within 25 minutes and are not registered)",
         },
         "outside": "the first two weeks of year 0000 and the last week of 9999 for week periods, predecessors of the first month/quarter/year of 0000 (klog panics there: not representable, excluded like in C13's quantifier); pattern strings longer than 9 bytes",
         "stubs": [MODELS["regexp"], MODELS["fmt"], MODELS["tabulate"], "math.Ceil / math.Log2 on concrete floats (int->float of a symbolic month is case-split)"],
